@@ -65,3 +65,6 @@ Definition css_chunks (g : cgraph) (ents : list nat) : list (nat * nat * list na
 Definition wf_cgraphb (g : cgraph) : bool :=
   forallb (fun f => forallb (fun t => (t <? length g)%nat) (cf_recs f) &&
                     match cf_stub f with Some c => (c <? length g)%nat | None => true end) g.
+
+(* no "@import" points at file 0 (the runtime) *)
+Definition no_zero_targetb (g : cgraph) : bool := forallb (fun f => negb (memn 0%nat (cf_recs f))) g.
